@@ -28,7 +28,6 @@ def c10a(ctx, tu):
         fns = [f for f in tu.find(L + name + "::operator()") if not has_user_ops(f)]
         if not fns:
             ctx.ob("C10.a", L + name, None, unit=tu.name, detail="no arithmetic instantiation of %s in unit" % name)
-            continue
         for fn in fns:
             n += 1
             try:
